@@ -53,6 +53,7 @@ func init() {
 		mutation{"aof-enqueue-without-barrier", "kv/aof/mutation.go", "	d.writeBarrier.RLock()\n	defer d.writeBarrier.RUnlock()\n	if d.closed.Load() {", "	if d.closed.Load() {", "aof-barrier"},
 	)
 	addSelfTests("C19",
+		mutation{"lease-only-keys-not-transferred", "kv/memory/kv.go", "	deleted := (plain == nil) && (children == 0) && (token == 0)", "	deleted := (plain == nil) && (children == 0)\n	_ = token", "lease-transfer"},
 		mutation{"guard-accepts-subsecond", "kv/memory/lease.go", "	if td < time.Second {\n		return 0, false\n	}", "	if td < 0 {\n		return 0, false\n	}", "ttl-guard"},
 		mutation{"acquire-no-expiry-check", "kv/memory/lease.go", "	if curr > uint64(ref.UnixNano()) {\n		return 0, chord.ErrKVLeaseConflict\n	}\n", "", "memory-lease"},
 		mutation{"renew-ignores-token", "kv/memory/lease.go", "	if curr != prevToken {\n		return 0, chord.ErrKVLeaseExpired\n	}\n", "", "memory-lease"},
@@ -509,6 +510,8 @@ func runC17(c *Ctx) {
 			}
 		}
 	}
+
+	emptinessCoversAllParts(c, "range-filter")
 
 	// (b) table coverage
 	tables := map[string]bool{}
@@ -991,6 +994,7 @@ func runC19(c *Ctx) {
 		c.Ob("free-marker", "memory.Release#refuses-token-0", call.Pos(), okFree, "0 is the 'no lease' marker: Release(lease, 0) on a free lease would CAS(0,0) and report success, where sqlite answers ErrKVLeaseExpired")
 	}
 	c.Floor("memory.Release CAS sites", len(casOf(rel)), 1)
+	emptinessCoversAllParts(c, "lease-transfer")
 	for _, fn := range []*Fn{acq, ren, rel} {
 		for _, r := range fn.Returns() {
 			fs := fn.FactsAt(r)
@@ -1187,4 +1191,42 @@ func memoryWriteEffects(c *Ctx, rule string) {
 		}
 	}
 	c.Floor("memory write effects", n, 10)
+}
+
+// emptinessCoversAllParts: memory's "this key holds nothing" predicate (isDeleted) must
+// read every data field of a stored value. RangeKeys skips keys it considers deleted, so a
+// part the predicate ignores (e.g. the lease token) is silently left behind when the key's
+// range moves to another node.
+func emptinessCoversAllParts(c *Ctx, rule string) {
+	mp := c.P("kv/memory")
+	kvv, _ := mp.Types.Scope().Lookup("kvValue").Type().Underlying().(*types.Struct)
+	fn := c.Func("kv/memory", "kvValue", "isDeleted")
+	read := map[string]bool{}
+	ast.Inspect(fn.Body, func(n ast.Node) bool {
+		if se, ok := n.(*ast.SelectorExpr); ok {
+			if k := fn.FieldKey(se); strings.HasPrefix(k, "kv/memory.kvValue.") {
+				read[strings.TrimPrefix(k, "kv/memory.kvValue.")] = true
+			}
+		}
+		return true
+	})
+	// and each part read must take part in the returned conjunction
+	for i := 0; i < kvv.NumFields(); i++ {
+		f := kvv.Field(i).Name()
+		used := false
+		for _, r := range fn.Returns() {
+			pv := fn.Prov(r.Results[0])
+			if strings.Contains(pv, "recv."+f+".") {
+				used = true
+			}
+		}
+		c.Ob(rule, "kvValue.isDeleted#considers-"+f, fn.Decl.Pos(), read[f] && used, "the emptiness predicate used by RangeKeys takes the '"+f+"' part of a value into account (a key holding only that part must still be transferred)")
+	}
+	// it is a conjunction of emptiness tests (no part alone makes a key 'deleted')
+	for _, r := range fn.Returns() {
+		pv := fn.Prov(r.Results[0])
+		c.Ob(rule, "kvValue.isDeleted#conjunction", r.Pos(), !strings.Contains(pv, "||") && strings.Count(pv, "&&") >= kvv.NumFields()-1, "deleted means every part is empty: a conjunction over all parts; found "+pv)
+	}
+	rk := c.Func("kv/memory", "MemoryKV", "RangeKeys")
+	c.Ob(rule, "memory.RangeKeys#skips-only-deleted", rk.Decl.Pos(), len(rk.CallsTo(true, "kv/memory.kvValue.isDeleted")) == 1, "RangeKeys filters keys with exactly that predicate")
 }
